@@ -7,7 +7,9 @@ use crate::rt;
 
 use desync::scheduler::{self, scheduler, JobQueue, QueueResumer, SchedulerFuture, TrySyncError};
 use desync::Desync;
+use futures::channel::mpsc;
 use futures::channel::oneshot;
+use futures::stream::{Stream, StreamExt};
 use futures::future::{BoxFuture, FutureExt};
 use futures::Future;
 
@@ -75,6 +77,25 @@ impl Drop for Payload {
     }
 }
 
+/// the input stream handed to a pipe: counts its own destruction
+pub struct CountedStream { inner: mpsc::UnboundedReceiver<u64>, chan: usize, ctx: Arc<Ctx> }
+impl Stream for CountedStream {
+    type Item = u64;
+    fn poll_next(mut self: Pin<&mut Self>, cx: &mut std::task::Context<'_>) -> std::task::Poll<Option<u64>> {
+        let r = Pin::new(&mut self.inner).poll_next(cx);
+        if let std::task::Poll::Ready(Some(v)) = &r { rt::emit(&format!("yielded {} {}", self.chan, v)); }
+        r
+    }
+}
+impl Drop for CountedStream {
+    fn drop(&mut self) { self.ctx.stream_drops[self.chan].fetch_add(1, Ordering::SeqCst); rt::emit(&format!("streamdrop {}", self.chan)); }
+}
+/// captured by the processing closure: counts the closure's destruction
+pub struct FnGuard { chan: usize, ctx: Arc<Ctx> }
+impl Drop for FnGuard {
+    fn drop(&mut self) { self.ctx.fn_drops[self.chan].fetch_add(1, Ordering::SeqCst); rt::emit(&format!("fndrop {}", self.chan)); }
+}
+
 pub enum Obj {
     D(Arc<Desync<Payload>>),
     Q(Arc<JobQueue>, Arc<Payload>),
@@ -114,6 +135,19 @@ pub struct Ctx {
     pub max_pool: AtomicUsize,
     pub pool_changed: AtomicBool,
     pub stats: StdMutex<HashMap<&'static str, usize>>,
+    // pipes
+    senders: Vec<StdMutex<Option<mpsc::UnboundedSender<u64>>>>,
+    receivers: Vec<StdMutex<Option<mpsc::UnboundedReceiver<u64>>>>,
+    outs: StdMutex<HashMap<usize, desync::PipeStream<u64>>>,
+    pub sent: Vec<StdMutex<Vec<u64>>>,
+    pub processed: Vec<StdMutex<Vec<u64>>>,
+    pub outputs: StdMutex<HashMap<usize, Vec<u64>>>,
+    pub out_ended: StdMutex<HashMap<usize, bool>>,
+    pub pipe_of_chan: Vec<StdMutex<Option<(usize, bool, Option<usize>)>>>,   // (object, through?, out)
+    pub chan_closed: Vec<AtomicBool>,
+    pub out_dropped: StdMutex<HashMap<usize, bool>>,
+    stream_drops: Vec<AtomicUsize>,
+    fn_drops: Vec<AtomicUsize>,
 }
 
 fn token(id: usize) -> u64 { id as u64 * 7 + 3 }
@@ -163,6 +197,18 @@ impl Ctx {
             self.fail(&["C05", "C14"], format!("operation {} ran on object {} after it was freed", id, obj));
         }
         if c.busy.load(Ordering::SeqCst) { self.fail(&["C09"], format!("try_sync {} ran its closure after returning Busy", id)); }
+    }
+
+    /// the processing function of a pipe runs for one item (inside the target's exclusive access)
+    fn pipe_item(&self, obj: usize, chan: usize, item: u64) {
+        rt::emit(&format!("pitem {} {}", chan, item));
+        if self.occ[obj].swap(1, Ordering::SeqCst) != 0 {
+            self.fail(&["C01", "C11"], format!("pipe on channel {} processed item {} while another operation on object {} was in progress", chan, item, obj));
+        }
+        if self.dead[obj].load(Ordering::SeqCst) { self.fail(&["C05", "C11", "C14"], format!("pipe processed item {} on object {} after it was freed", item, obj)); }
+        self.processed[chan].lock().unwrap().push(item);
+        rt::yield_now();
+        self.occ[obj].store(0, Ordering::SeqCst);
     }
 
     fn exit(&self, id: usize, obj: usize, destroyed: bool) {
@@ -538,6 +584,77 @@ pub fn run_ops(ctx: &Arc<Ctx>, ops: &[Node], thread: usize) {
                 rt::emit(&format!("ret {} ok", node.id));
             }
             Op::Yield => rt::yield_now(),
+            Op::PipeIn(o, c) | Op::Pipe(o, c, _) => {
+                let Some(Obj::D(d)) = ctx.obj(*o) else { ctx.stat("skipped-dropped"); continue };
+                let Some(rx) = ctx.receivers[*c].lock().unwrap().take() else { continue };
+                let through = matches!(&node.op, Op::Pipe(..));
+                let out = if let Op::Pipe(_, _, s) = &node.op { Some(*s) } else { None };
+                *ctx.pipe_of_chan[*c].lock().unwrap() = Some((*o, through, out));
+                let stream = CountedStream { inner: rx, chan: *c, ctx: Arc::clone(ctx) };
+                let guard = FnGuard { chan: *c, ctx: Arc::clone(ctx) };
+                let (c2, ch, ob) = (Arc::clone(ctx), *c, *o);
+                ctx.status.lock().unwrap().insert(thread, (node.id, if through { "pipe" } else { "pipein" }, *o));
+                rt::emit(&format!("inv {} {} {} {}", node.id, if through { "pipe" } else { "pipein" }, o, c));
+                if through {
+                    let s = desync::pipe(Arc::clone(&d), stream, move |_p: &mut Payload, item: u64| {
+                        let _g = &guard;
+                        c2.pipe_item(ob, ch, item);
+                        futures::future::ready(item * 2 + 1).boxed()
+                    });
+                    ctx.outs.lock().unwrap().insert(out.unwrap(), s);
+                } else {
+                    desync::pipe_in(Arc::clone(&d), stream, move |_p: &mut Payload, item: u64| {
+                        let _g = &guard;
+                        c2.pipe_item(ob, ch, item);
+                        futures::future::ready(()).boxed()
+                    });
+                }
+                rt::emit(&format!("ret {} ok", node.id));
+                ctx.status.lock().unwrap().remove(&thread);
+                release(ctx, *o, Obj::D(d), thread);
+            }
+            Op::Send(c, n) => {
+                for _ in 0..*n {
+                    let v = { let mut s = ctx.sent[*c].lock().unwrap(); let v = (*c as u64) * 1000 + s.len() as u64; s.push(v); v };
+                    let tx = ctx.senders[*c].lock().unwrap().clone();
+                    if let Some(tx) = tx { rt::emit(&format!("chsend {} {}", c, v)); tx.unbounded_send(v).ok(); }
+                }
+            }
+            Op::CloseCh(c) => {
+                ctx.chan_closed[*c].store(true, Ordering::SeqCst);
+                let tx = ctx.senders[*c].lock().unwrap().take();
+                rt::emit(&format!("chclose {}", c));
+                drop(tx);
+            }
+            Op::Next(s) | Op::Drain(s) => {
+                let drain = matches!(&node.op, Op::Drain(_));
+                loop {
+                    let stream = ctx.outs.lock().unwrap().remove(s);
+                    let Some(mut stream) = stream else { ctx.stat("skipped-nostream"); break };
+                    ctx.status.lock().unwrap().insert(thread, (node.id, "next", *s));
+                    rt::emit(&format!("inv {} next {}", node.id, s));
+                    let r = rt::block_on(stream.next());
+                    rt::emit(&format!("ret {} {}", node.id, match r { Some(_) => "item", None => "end" }));
+                    ctx.status.lock().unwrap().remove(&thread);
+                    ctx.outs.lock().unwrap().insert(*s, stream);
+                    match r {
+                        Some(v) => { ctx.outputs.lock().unwrap().entry(*s).or_default().push(v); if !drain { break; } }
+                        None => { ctx.out_ended.lock().unwrap().insert(*s, true); break; }
+                    }
+                }
+            }
+            Op::DropOut(s) => {
+                let stream = ctx.outs.lock().unwrap().remove(s);
+                if let Some(stream) = stream {
+                    rt::emit(&format!("inv {} dropout {}", node.id, s));
+                    ctx.out_dropped.lock().unwrap().insert(*s, true);
+                    drop(stream);
+                    rt::emit(&format!("ret {} ok", node.id));
+                }
+            }
+            Op::SetDepth(s, n) => {
+                if let Some(stream) = ctx.outs.lock().unwrap().get_mut(s) { stream.set_backpressure_depth(*n); }
+            }
         }
     }
 }
@@ -570,6 +687,7 @@ pub fn make_ctx(prog: &Program) -> Arc<Ctx> {
                 Op::Desync(o, _) | Op::Sync(o, _) | Op::TrySync(o, _) | Op::Suspend(o, _) | Op::DropObj(o) => (*o, None),
                 Op::FDesync(o, g, _) | Op::FSync(o, g, _) => (*o, *g),
                 Op::After(o, g, _) => (*o, Some(*g)),
+                Op::PipeIn(o, _) | Op::Pipe(o, _, _) => (*o, None),
                 _ => (usize::MAX, None),
             };
             calls[n.id].kind = n.op.kind();
@@ -600,6 +718,18 @@ pub fn make_ctx(prog: &Program) -> Arc<Ctx> {
         max_pool: AtomicUsize::new(prog.pool),
         pool_changed: AtomicBool::new(false),
         stats: StdMutex::new(HashMap::new()),
+        senders: (0..prog.chans).map(|_| StdMutex::new(None)).collect(),
+        receivers: (0..prog.chans).map(|_| StdMutex::new(None)).collect(),
+        outs: StdMutex::new(HashMap::new()),
+        sent: (0..prog.chans).map(|_| StdMutex::new(vec![])).collect(),
+        processed: (0..prog.chans).map(|_| StdMutex::new(vec![])).collect(),
+        outputs: StdMutex::new(HashMap::new()),
+        out_ended: StdMutex::new(HashMap::new()),
+        pipe_of_chan: (0..prog.chans).map(|_| StdMutex::new(None)).collect(),
+        chan_closed: (0..prog.chans).map(|_| AtomicBool::new(false)).collect(),
+        out_dropped: StdMutex::new(HashMap::new()),
+        stream_drops: (0..prog.chans).map(|_| AtomicUsize::new(0)).collect(),
+        fn_drops: (0..prog.chans).map(|_| AtomicUsize::new(0)).collect(),
     })
 }
 
@@ -618,6 +748,11 @@ pub fn execute(ctx: &Arc<Ctx>) {
         };
         *ctx.objs[o].lock().unwrap() = Some(obj);
     }
+    for c in 0..prog.chans {
+        let (tx, rx) = mpsc::unbounded::<u64>();
+        *ctx.senders[c].lock().unwrap() = Some(tx);
+        *ctx.receivers[c].lock().unwrap() = Some(rx);
+    }
     rt::emit("setup-done");
 
     let mut handles = vec![];
@@ -633,7 +768,7 @@ pub fn execute(ctx: &Arc<Ctx>) {
 
     // With no pool thread, accepted asynchronous work only runs when a caller runs the queue:
     // flush with sync calls first (C04 makes those return).
-    let flush_needed = prog.pool == 0 || ctx.max_pool.load(Ordering::SeqCst) == 0 || ctx.pool_changed.load(Ordering::SeqCst);
+    let flush_needed = prog.pool == 0 || ctx.max_pool.load(Ordering::SeqCst) == 0 || ctx.pool_changed.load(Ordering::SeqCst) || prog.chans > 0;
     if flush_needed {
         for _pass in 0..(prog.objects + 1) {
             for o in 0..prog.objects {
@@ -659,6 +794,7 @@ pub fn execute(ctx: &Arc<Ctx>) {
         ctx.main_waiting.store(false, Ordering::SeqCst);
     }
     rt::emit("all-completed");
+    if prog.chans > 0 { check_pipes(ctx); }
 
     // C17: pool size against the configured maximum
     let peak = vsched::thread::peak_live_named();
@@ -706,7 +842,8 @@ pub fn execute(ctx: &Arc<Ctx>) {
         let obj = ctx.objs[o].lock().unwrap().take();
         let was_d = matches!(obj, Some(Obj::D(_))) || (prog.kinds.as_bytes()[o] == b'd');
         drop(obj);
-        if was_d && ctx.drops[o].load(Ordering::SeqCst) != 1 { ctx.fail(&["C05"], format!("object {} freed {} times by the end of the run", o, ctx.drops[o].load(Ordering::SeqCst))); }
+        let piped_through = (0..prog.chans).any(|c| matches!(*ctx.pipe_of_chan[c].lock().unwrap(), Some((oo, true, _)) if oo == o));
+        if was_d && !piped_through && ctx.drops[o].load(Ordering::SeqCst) != 1 { ctx.fail(&["C05"], format!("object {} freed {} times by the end of the run", o, ctx.drops[o].load(Ordering::SeqCst))); }
     }
     vsched::set_tracing_paused(false);
     rt::emit("finished");
@@ -762,6 +899,8 @@ pub fn classify_deadlock(ctx: &Arc<Ctx>) -> Failure {
             "await-fsync" => { add("C08"); }
             "await-suspend" => { add("C13"); }
             "despawn" => { add("C17"); }
+            "next" => { add("C12"); }
+            "pipe" | "pipein" => { add("C11"); add("C04"); }
             "desync" | "fdesync" | "after" | "fsync" | "trysync" | "suspend" => { add("C03"); if *kind == "trysync" { add("C09"); } }
             _ => {}
         }
@@ -778,4 +917,63 @@ pub fn classify_deadlock(ctx: &Arc<Ctx>) -> Failure {
     if ctx.calls.iter().any(|c| c.kind == "trysync" && c.busy.load(Ordering::SeqCst) && stuck_objs.contains(&c.obj)) { add("C09"); }
     if props.is_empty() { props.push("C03"); }
     Failure { props, what }
+}
+
+/// Pipe oracles (C11, C12, C16), evaluated once every caller thread is done and the targets were flushed.
+fn check_pipes(ctx: &Arc<Ctx>) {
+    let prog = &ctx.prog;
+    // senders still held by the harness are dropped now: the inputs fall silent (not closed unless the program closed them)
+    let shut = |c: usize| ctx.stream_drops[c].load(Ordering::SeqCst) == 1 && ctx.fn_drops[c].load(Ordering::SeqCst) == 1;
+    // give disposal jobs (they run on the crate's internal REFERENCE_CHUTE queue) a bounded chance to run
+    for _ in 0..3000 {
+        let mut settled = true;
+        for c in 0..prog.chans {
+            let Some((_o, through, out)) = *ctx.pipe_of_chan[c].lock().unwrap() else { continue };
+            let must_be_shut = ctx.chan_closed[c].load(Ordering::SeqCst) || (through && out.map(|s| *ctx.out_dropped.lock().unwrap().get(&s).unwrap_or(&false)).unwrap_or(false));
+            if must_be_shut && !shut(c) { settled = false; }
+            // the reference held by a dropped output stream is released by a job on the crate's disposal queue
+            let out_gone = through && out.map(|s| *ctx.out_dropped.lock().unwrap().get(&s).unwrap_or(&false)).unwrap_or(false);
+            if out_gone { if let Some(Obj::D(d)) = ctx.obj(_o) { if Arc::strong_count(&d) > 2 { settled = false; } } }
+        }
+        if settled { break; }
+        rt::yield_now();
+    }
+    for c in 0..prog.chans {
+        let Some((o, through, out)) = *ctx.pipe_of_chan[c].lock().unwrap() else { continue };
+        let sent = ctx.sent[c].lock().unwrap().clone();
+        let processed = ctx.processed[c].lock().unwrap().clone();
+        let alive = ctx.objs[o].lock().unwrap().is_some();
+        // every item once, in order
+        if processed.len() > sent.len() || processed[..] != sent[..processed.len()] {
+            ctx.fail(&["C11", "C12"], format!("pipe on channel {} processed {:?} but the stream yielded {:?}", c, processed, sent));
+        }
+        if !through && alive && processed.len() != sent.len() {
+            ctx.fail(&["C11"], format!("pipe_in on channel {}: {} of {} items processed at quiescence", c, processed.len(), sent.len()));
+        }
+        if through {
+            let s = out.unwrap();
+            let outs = ctx.outputs.lock().unwrap().get(&s).cloned().unwrap_or_default();
+            let want: Vec<u64> = sent.iter().take(outs.len()).map(|v| v * 2 + 1).collect();
+            if outs != want { ctx.fail(&["C12"], format!("pipe on channel {} delivered {:?}, expected {:?}", c, outs, want)); }
+            if *ctx.out_ended.lock().unwrap().get(&s).unwrap_or(&false) {
+                if !ctx.chan_closed[c].load(Ordering::SeqCst) { ctx.fail(&["C12"], format!("output stream {} ended although its input has not ended", s)); }
+                if outs.len() != sent.len() { ctx.fail(&["C12"], format!("output stream {} ended after {} of {} items", s, outs.len(), sent.len())); }
+            }
+            if *ctx.out_dropped.lock().unwrap().get(&s).unwrap_or(&false) && !shut(c) {
+                ctx.fail(&["C16"], format!("output stream {} was dropped but the pipe did not shut down (input stream drops {}, closure drops {})", s, ctx.stream_drops[c].load(Ordering::SeqCst), ctx.fn_drops[c].load(Ordering::SeqCst)));
+            }
+        }
+        if ctx.chan_closed[c].load(Ordering::SeqCst) && alive && !shut(c) {
+            ctx.fail(&["C11", "C12"], format!("input {} ended but the pipe did not release its stream and closure (stream drops {}, closure drops {})", c, ctx.stream_drops[c].load(Ordering::SeqCst), ctx.fn_drops[c].load(Ordering::SeqCst)));
+        }
+        // weak reference only: a finished or shut-down pipe holds no strong reference to its target
+        if alive && (ctx.chan_closed[c].load(Ordering::SeqCst) || !through || shut(c)) {
+            if let Some(Obj::D(d)) = ctx.obj(o) {
+                let out_gone = out.map(|s| *ctx.out_dropped.lock().unwrap().get(&s).unwrap_or(&false)).unwrap_or(true);
+                let expect = 2 + if through && !out_gone { 1 } else { 0 };   // the slot and this temporary clone (+ the output stream, which keeps its target alive until it is dropped)
+                let pipes_on_obj = (0..prog.chans).filter(|cc| matches!(*ctx.pipe_of_chan[*cc].lock().unwrap(), Some((oo, _, _)) if oo == o)).count();
+                if pipes_on_obj == 1 && Arc::strong_count(&d) > expect { ctx.fail(&["C11", "C16"], format!("object {} has {} strong references at quiescence, expected {}", o, Arc::strong_count(&d), expect)); }
+            }
+        }
+    }
 }
